@@ -12,9 +12,11 @@ package types
 //@   ensures #time Time != nil && Time.Kind == KTime
 //@   ensures #top Top != nil && Top.Kind == KTop
 //@   ensures #bot Bottom != nil && Bottom.Kind == KBot
+//@   ensures #distinct Num != Str && Num != Bool && Num != Time && Str != Bool && Str != Time && Bool != Time
 
 //@ func Equals
 //@   props C17 C01 C05 C07 C16
+//@   modifies allmaps(util.PtrPtrSet), allmaps(util.PtrSet)
 //@   requires wfT(x) && wfT(y)
 //@   nopanic
 //@   ensures #spec result == tyEq(x, y)
